@@ -1,7 +1,7 @@
 #!/bin/bash
 # C06, last clause ("the crate builds without the standard library"). A fact about one build
 # configuration, not about inputs, so this is a fixed probe attached to the C06 check (the image
-# has no no_std target installed): build the library from /repo's working tree with default
+# has no no_std target installed): build the library from /repo's working tree in both profiles (release, dev) with default
 # features (feature std off) and with feature serde, and list the external crates the compiled
 # rlib links against. A `std` dependency is a violation; an `alloc` dependency is reported (the
 # allocation oracle of the generated runs decides whether any operation actually allocates).
@@ -9,19 +9,22 @@ set -u
 W="$VERIF_DIR/work/nostd-probe"; mkdir -p "$W"
 LOG="$W/probe.log"; : > "$LOG"
 bad=0
+for prof in release dev; do
 for feat in "" "serde"; do
   T="$W/t-${feat:-default}"
-  if ! ( cd /repo && CARGO_NET_OFFLINE=true cargo +nightly build --offline --lib --release ${feat:+--features $feat} --target-dir "$T" ) >>"$LOG" 2>&1; then
+  pf="--release"; pd="release"; [ "$prof" = "dev" ] && { pf=""; pd="debug"; }
+  if ! ( cd /repo && CARGO_NET_OFFLINE=true cargo +nightly build --offline --lib $pf ${feat:+--features $feat} --target-dir "$T" ) >>"$LOG" 2>&1; then
     echo "INCONCLUSIVE: the library does not build with nightly for the no_std probe (see $LOG)"; tail -n 15 "$LOG"; exit 2
   fi
-  deps=$(rustc +nightly -Zls=root "$T/release/libmicromap.rlib" 2>>"$LOG" | sed -n '/External Dependencies/,/^$/p' | awk 'NR>1 && NF {print $2}' | sed 's/-[0-9a-f]*$//' | tr '\n' ' ')
-  echo "no_std probe (features: ${feat:-none}): the rlib links against: $deps" | tee -a "$LOG"
+  deps=$(rustc +nightly -Zls=root "$T/$pd/libmicromap.rlib" 2>>"$LOG" | sed -n '/External Dependencies/,/^$/p' | awk 'NR>1 && NF {print $2}' | sed 's/-[0-9a-f]*$//' | tr '\n' ' ')
+  echo "no_std probe (profile $prof, features: ${feat:-none}): the rlib links against: $deps" | tee -a "$LOG"
   for d in $deps; do
     case "$d" in
-      std) echo "violated: with features [${feat:-none}] the library links against std (it does not build without the standard library)"; bad=1 ;;
-      alloc) echo "note: with features [${feat:-none}] the library links against alloc" ;;
+      std) echo "violated: in the $prof profile with features [${feat:-none}] the library links against std (it does not build without the standard library)"; bad=1 ;;
+      alloc) echo "note: in the $prof profile with features [${feat:-none}] the library links against alloc" ;;
     esac
   done
+done
 done
 if [ $bad -eq 1 ]; then echo "VIOLATION property=C06 replay=$LOG"; exit 1; fi
 exit 0
